@@ -427,7 +427,7 @@ PROPS = {
         "Trusted: the virtual world (engine/vw.c, netsim.h) and the comparison. Payloads are fixed unique pseudo-random/compressible packets, not all contents; zlib's Adler-32 is what rejects mis-spliced fragments, so a colliding splice is outside what this decides. Fault histories with more deviations than the bound are not covered.",
         "non-trivial = at least one packet crossed the tunnel; distinct = distinct (set and order of delivered tags per side, repeats, client alive) outcome classes", []),
     "C02": ea_entry("C02",
-        "Clean path: every cell of the grid (excluding forced fragment sizes the record type cannot carry) x latency classes runs four packets per direction, offered back-to-back and spaced; the sequence of tun writes on each side must equal the sequence of packets the peer accepted (exactly once, in order), for every packet that fits in 16 fragments. Recovery: in every cell of the pairwise-covering subset a 120-byte packet is offered on each tun every second for 105 virtual seconds; each of 17 outages (all queries / all answers / all datagrams dropped for 3, 7.4, 8, 12, 14, 25 or 35 s at several offsets) is followed by a clean path; neither program may have ended, and every packet offered from 45 s after the outage on must arrive exactly once, in order, within 10 s.",
+        "Clean path: every cell of the grid (excluding forced fragment sizes the record type cannot carry) x latency classes runs four packets per direction, offered back-to-back and spaced; the sequence of tun writes on each side must equal the sequence of packets the peer accepted (exactly once, in order), for every packet that fits in 16 fragments. Recovery: in every cell of the pairwise-covering subset a 120-byte packet is offered on each tun every second for 105 virtual seconds; each of 65 fault windows - outages (all queries / all answers / all datagrams dropped for 3..35 s at several offsets, including offsets every few milliseconds across a multi-fragment packet in either direction) and windows in which every datagram is delivered twice, repeated with a fresh DNS id, delayed by 5 s, or alternately delayed by 1.2 s (reordering), for 8 or 25 s - is followed by a clean path; neither program may have ended, and every packet offered from 45 s after the outage on must arrive exactly once, in order, within 10 s.",
         "Recovery is decided as bounded response on finite runs (B = 45 s, latency bound 10 s, horizon 105 s; genuine 'eventually' is not what a bounded explorer decides). A cell that cannot carry the offered load without any outage is reported as not judged instead of raising an alarm. 'accepted' is evaluated from read-only accessors at the moment the program reads its tun.",
         "distinct = distinct delivery outcome classes (clean-path runs) and distinct (outage, deliveries) classes (recovery runs)", ["recovery_runs", "recovery_probes_checked", "recovery_cells_not_judged"]),
     "C11": ea_entry("C11",
